@@ -68,18 +68,28 @@ def run(tier):
             if any(a["a"] == "repeated" and a["key"] == "include" for a in hist):
                 continue                 # INCLUDE lines would be expanded by open/load
             conc = concretise.Concretiser(seed * 983 + j, avoid_quote='"')
-            text, _ = comments.render(conc, hist, docs.root_type(hist), cms, salt=seed + j, nl="\n" if j % 3 else "\r\n")
-            if any(ln.strip().lower().startswith("include") for ln in text.splitlines()):
-                continue
-            cases.append(("gen:%d" % j, text, None))
+            inc = None
+            if j % 3 == 0:
+                # move up to three one-line simple keywords into include files (several INCLUDE lines in one file)
+                attrs = [i for i, a in enumerate(hist, start=1) if a["a"] == "attr"]
+                inc = {i: "inc%d_%d.map" % (j, n) for n, i in enumerate(attrs[1:6:2])} or None
+            r3 = comments.render(conc, hist, docs.root_type(hist), cms, salt=seed + j, nl="\n" if j % 3 else "\r\n", include_items=inc)
+            text, incfiles = r3[0], (r3[2] if inc else {})
+            lines_inc = [ln for ln in text.splitlines() if ln.strip().lower().startswith("include")]
+            if len(lines_inc) != len(incfiles):
+                continue                 # the document itself carries INCLUDE keywords as data (they would be expanded)
+            cases.append(("gen:%d" % j, text, None, incfiles))
             ck.nontrivial([hist[:-1], cms])
         for fn in (corpus.sample(30, seed) if quick else corpus.files()):
-            cases.append(("corpus:" + os.path.relpath(fn, common.REPO), None, fn))
-        for tid, text, fn in cases:
+            cases.append(("corpus:" + os.path.relpath(fn, common.REPO), None, fn, {}))
+        for tid, text, fn, incfiles in cases:
             if fn is None:
                 fn2 = os.path.join(tmp, "doc.map")
                 with open(fn2, "w", encoding="utf-8", newline="") as f:
                     f.write(text)
+                for name, body in incfiles.items():
+                    with open(os.path.join(tmp, name), "w", encoding="utf-8", newline="") as f:
+                        f.write(body)
             else:
                 fn2 = fn
                 try:
@@ -99,8 +109,8 @@ def run(tier):
             for (pflag, cflag) in combos:
                 p, m = parsers[(pflag, cflag)]
                 for api in ("open", "load", "loads"):
-                    if api == "loads" and fn is not None:
-                        continue       # corpus files may use INCLUDE relative to their directory
+                    if api == "loads" and (fn is not None or incfiles):
+                        continue       # INCLUDE names are relative to the file's directory
                     if (pflag, cflag) == (False, False) and api == "open":
                         continue
                     ck.count()
